@@ -18,10 +18,14 @@ import (
 type Term struct {
 	S    string
 	Sort string
+	// Op/Kids keep the boolean structure (and/or/not) so that the engine can
+	// evaluate a condition against the facts already asserted on the path.
+	Op   string
+	Kids []*Term
 }
 
-var tTrue = &Term{"true", "Bool"}
-var tFalse = &Term{"false", "Bool"}
+var tTrue = mkTerm("true", "Bool")
+var tFalse = mkTerm("false", "Bool")
 
 func bvSort(bits int) string { return fmt.Sprintf("(_ BitVec %d)", bits) }
 
@@ -40,10 +44,10 @@ func tNot(a *Term) *Term {
 	case tFalse:
 		return tTrue
 	}
-	if strings.HasPrefix(a.S, "(not ") {
-		return &Term{a.S[5 : len(a.S)-1], "Bool"}
+	if a.Op == "not" {
+		return a.Kids[0]
 	}
-	return &Term{"(not " + a.S + ")", "Bool"}
+	return &Term{S: "(not " + a.S + ")", Sort: "Bool", Op: "not", Kids: []*Term{a}}
 }
 func tAnd(a, b *Term) *Term {
 	if a == tFalse || b == tFalse {
@@ -58,7 +62,7 @@ func tAnd(a, b *Term) *Term {
 	if a.S == b.S {
 		return a
 	}
-	return &Term{"(and " + a.S + " " + b.S + ")", "Bool"}
+	return &Term{S: "(and " + a.S + " " + b.S + ")", Sort: "Bool", Op: "and", Kids: []*Term{a, b}}
 }
 func tOr(a, b *Term) *Term {
 	if a == tTrue || b == tTrue {
@@ -73,7 +77,7 @@ func tOr(a, b *Term) *Term {
 	if a.S == b.S {
 		return a
 	}
-	return &Term{"(or " + a.S + " " + b.S + ")", "Bool"}
+	return &Term{S: "(or " + a.S + " " + b.S + ")", Sort: "Bool", Op: "or", Kids: []*Term{a, b}}
 }
 func tIte(c, a, b *Term) *Term {
 	if c == tTrue {
@@ -93,7 +97,7 @@ func tIte(c, a, b *Term) *Term {
 			return tNot(c)
 		}
 	}
-	return &Term{"(ite " + c.S + " " + a.S + " " + b.S + ")", a.Sort}
+	return mkTerm("(ite " + c.S + " " + a.S + " " + b.S + ")", a.Sort)
 }
 func tEq(a, b *Term) *Term {
 	if a.S == b.S {
@@ -114,25 +118,25 @@ func tEq(a, b *Term) *Term {
 		}
 	}
 	if a.Sort == "F64" || a.Sort == "F32" {
-		return &Term{"(fp.eq " + a.S + " " + b.S + ")", "Bool"}
+		return mkTerm("(fp.eq " + a.S + " " + b.S + ")", "Bool")
 	}
-	return &Term{"(= " + a.S + " " + b.S + ")", "Bool"}
+	return mkTerm("(= " + a.S + " " + b.S + ")", "Bool")
 }
 func tInt(i int64) *Term {
 	if i < 0 {
-		return &Term{fmt.Sprintf("(- %d)", -i), "Int"}
+		return mkTerm(fmt.Sprintf("(- %d)", -i), "Int")
 	}
-	return &Term{fmt.Sprintf("%d", i), "Int"}
+	return mkTerm(fmt.Sprintf("%d", i), "Int")
 }
 func tBV(i int64, bits int) *Term {
 	var u uint64 = uint64(i)
 	if bits < 64 {
 		u &= (uint64(1) << uint(bits)) - 1
 	}
-	return &Term{fmt.Sprintf("(_ bv%d %d)", u, bits), bvSort(bits)}
+	return mkTerm(fmt.Sprintf("(_ bv%d %d)", u, bits), bvSort(bits))
 }
 func tBin(op string, a, b *Term, sort string) *Term {
-	return &Term{"(" + op + " " + a.S + " " + b.S + ")", sort}
+	return mkTerm("(" + op + " " + a.S + " " + b.S + ")", sort)
 }
 func tBool(b bool) *Term {
 	if b {
@@ -143,11 +147,11 @@ func tBool(b bool) *Term {
 
 func tF64(f float64) *Term {
 	b := math.Float64bits(f)
-	return &Term{fmt.Sprintf("(fp #b%01b #b%011b #b%052b)", b>>63, (b>>52)&0x7ff, b&((1<<52)-1)), "F64"}
+	return mkTerm(fmt.Sprintf("(fp #b%01b #b%011b #b%052b)", b>>63, (b>>52)&0x7ff, b&((1<<52)-1)), "F64")
 }
 func tF32(f float32) *Term {
 	b := math.Float32bits(f)
-	return &Term{fmt.Sprintf("(fp #b%01b #b%08b #b%023b)", b>>31, (b>>23)&0xff, b&((1<<23)-1)), "F32"}
+	return mkTerm(fmt.Sprintf("(fp #b%01b #b%08b #b%023b)", b>>31, (b>>23)&0xff, b&((1<<23)-1)), "F32")
 }
 
 func smtSort(s string) string {
@@ -459,3 +463,5 @@ func modelFloat(v string, bits int) (float64, bool) {
 	}
 	return 0, false
 }
+
+func mkTerm(s, sort string) *Term { return &Term{S: s, Sort: sort} }
